@@ -5,7 +5,7 @@ git -C /repo apply "$d/patch.diff" || exit 2
 for c in "$@"; do
   (cd /verif && ./check $c 2>&1 | grep -v "^  " | cut -c1-230 | tail -5)
 done
-git -C /repo checkout -- . 
+git -C /repo checkout -- . ; git -C /repo clean -fdq
 # evidence written while a seeded change was applied is not evidence about the tree: restore the committed files
 git -C /verif checkout -- evidence/ 2>/dev/null
 git -C /repo status --short
